@@ -35,13 +35,22 @@ func depthProbe() (string, string) {
 	a.push(0)
 	a.push(0)
 	a.pushBytes(b20[:])
-	a.op(0x5a, opCALL, opPOP, opSTOP) // GAS
+	a.op(0x5a, opCALL, opPOP) // GAS
+	// ... and, on the way back, CREATE(0, 0, 0): the frame running at evm.depth 1025 is refused up-front (depth), the
+	// 1024 above it each create an empty account and bump the creator's nonce
+	a.push(0)
+	a.push(0)
+	a.push(0)
+	a.op(opCREATE, opPOP, opSTOP)
 	h.adb.SetCode(b20, a.finish())
 	evm := h.newEVM(o)
 	_, _, _, err := evm.Call(vm.AccountRef(o), b20, nil, 1<<62, big.NewInt(0))
 	got := new(big.Int).SetBytes(h.adb.GetState(b20, common.Hash{}).Bytes()).Uint64()
 	if err != nil || got != 1025 {
 		return "boundary:depth-limit", fmt.Sprintf("self-recursive contract ran %d frames (err=%v); with CallCreateDepth=1024 exactly 1025 frames run", got, err)
+	}
+	if n := h.adb.GetNonce(b20); n != 1024 {
+		return "boundary:depth-limit-create", fmt.Sprintf("each of the 1025 frames did one CREATE; the one at depth 1025 is refused for depth before anything happens, so the creator's nonce must be 1024, it is %d", n)
 	}
 	return "", ""
 }
